@@ -32,7 +32,7 @@ func VerifC02Profiles() {
 		}
 		p = c
 	}
-	in := windowInput(vnd.Param("C02.KProfiles", 2, 3))
+	in := windowInput(vnd.Param("C02.KProfiles", 2, 2))
 	u, err := p.Parse(in)
 	if err == nil && u == nil {
 		vnd.Fail("profile Parse returned neither a URL nor an error")
